@@ -33,54 +33,9 @@ PROP = "C07"
 H = '[$default byte_order: "LittleEndian"]\n'
 
 # OPEN findings only: key -> (what, pinned input, force flags for the driver).  The pinned inputs of the findings
-# repaired by fix: commits (dca9b37, a37c4e1, d48a2f1) live in corpus/C07/ and are ordinary cases now.
+# repaired by fix: commits (dca9b37, a37c4e1, d48a2f1, and the identifier-clash rejection:
+# corpus/C07/clash_*_must_be_rejected.*) live in corpus/C07/ and are ordinary cases now.
 FINDINGS = [
-    ("field-named-like-view-data-member",
-     "a field named `backing_` (or `parameters_initialized_` in a structure with parameters) clashes with the "
-     "view class's data member of that name",
-     H + "struct Foo:\n  0 [+1] UInt backing_\n", ()),
-    ("field-named-like-parameter-member",
-     "a field named `<p>_` in a structure with a parameter `<p>` clashes with the parameter's data member",
-     H + "struct Foo(x: UInt:8):\n  0 [+1] UInt x_\n", ()),
-    ("parameter-named-like-view-data-member",
-     "a parameter named `backing` (member `backing_`) or `parameters_initialized` clashes with the view class's "
-     "own data member",
-     H + "struct Foo(backing: UInt:8):\n  0 [+1] UInt y\n", ()),
-    ("field-named-has_-of-another-field",
-     "fields `x` and `has_x` in one structure: `has_x()` is declared twice",
-     H + "struct Foo:\n  0 [+1] UInt x\n  1 [+1] UInt has_x\n", ()),
-    ("nested-enum-named-like-view-member",
-     "an enum nested in a structure and named like a member of the view class (`Ok`, `Storage`, `IsComplete`, "
-     "`MaxSizeInBytes`, ...): the `using <Enum> = ...;` inside the class clashes",
-     H + "struct Foo:\n  enum Ok:\n    AA = 1\n  0 [+1] Ok y\n", ()),
-    ("type-named-like-generated-type-identifier",
-     "a type named like an identifier generated for another structure (`enum BarView` / `struct BarView` next to "
-     "`struct Bar`; also `BarWriter`, `GenericBarView`, `MakeBarView`, `MakeAlignedBarView`)",
-     H + "struct Bar:\n  0 [+1] UInt y\n\nenum BarView:\n  AA = 1\n", ()),
-    ("type-named-like-enum-helper",
-     "a type named `EnumTraits`, `EnumIsKnown`, `TryToGetEnumFromName` or `TryToGetNameFromEnum` clashes with the "
-     "enum helper of that name",
-     "enum EnumTraits:\n  AA = 1\n", ()),
-    ("nested-type-named-like-size-constant",
-     "a type nested in a structure and named `MaxSizeInBytes`/`MinSizeInBytes`/`IntrinsicSizeInBytes` (…Bits) "
-     "clashes with the constant's free function in `namespace <Struct>`",
-     H + "struct Foo:\n  struct MaxSizeInBytes:\n    0 [+1] UInt q\n  0 [+1] UInt y\n", ()),
-    ("structure-named-Storage-or-ValueType",
-     "a structure named `Storage` or `ValueType`: the constant virtual fields' `Read()` is generated as "
-     "`return <Struct>::<field>();`, and inside `Generic<Struct>View<Storage>::<VirtualView>` that name finds the "
-     "template parameter `Storage` / the nested `using ValueType` instead of `namespace <Struct>`",
-     H + "struct Storage:\n  0 [+1] UInt y\n", ()),
-    ("nested-enum-named-like-its-structure",
-     "an enum nested in a structure and named like the structure (`struct Foo: enum Foo`): inside the view class the "
-     "`using Foo = ...;` of the enum hides `namespace Foo`, so `Foo::IntrinsicSizeInBytes()` of the constants' `Read()` "
-     "names a member of the enum",
-     H + "struct Foo:\n  enum Foo:\n    AA = 1\n  0 [+1] UInt y\n", ()),
-    ("type-declared-twice-in-one-cpp-namespace",
-     "two modules compiled together that share one C++ namespace (the same `(cpp) namespace`, or none: both use "
-     "`emboss_generated_code`) and both declare a type `Foo`: the header of the importing module includes the other "
-     "one and `GenericFooView` is defined twice",
-     {"m.emb": 'import "dep.emb" as dep\n' + H + "struct Foo:\n  0 [+1] UInt y\n  1 [+1] dep.Foo z\n",
-      "dep.emb": H + "struct Foo:\n  0 [+1] UInt q\n"}, ()),
     ("constant-condition-choice-static-assert",
      "`let v = true ? a : b` (constant condition, branches of different C++ integer types): runtime static_assert "
      "\"Choice's IntermediateT should be the same as ResultT\" fails when `v()` is used (found by builder bounds)",
@@ -89,10 +44,6 @@ FINDINGS = [
      "`begin()`/`end()` of an array field of a `bits` do not compile (`OffsetBitBlock` has no nullptr constructor and, "
      "having const members, no copy assignment)",
      H + "bits Bb:\n  0 [+8] UInt:4[2] xs\n\nstruct Foo:\n  0 [+1] Bb b\n", ("bits-iter",)),
-    ("alias-of-virtual-field-uses-deleted-default-constructor",
-     "an alias of a non-constant virtual field (`let v1 = v0`, `let v0 = f0 + 1`) does not compile once `v1()` is "
-     "used: `decltype(this->v0())()` needs the deleted default constructor (found by builder scalar)",
-     H + "struct Top:\n  0 [+4] Int f0\n  let v0 = f0 + 1\n  let v1 = v0\n", ()),
     ("crash:ir_util.py:get_attribute:AssertionError",
      "`enum_case` attributes for two back ends on one enum value make the C++ back end fail an assertion "
      "(`Duplicate attribute`) instead of producing a header",
@@ -287,6 +238,14 @@ def prepare(chk, label, files, main, force=(), expect_key=None):
     c.status = c.build["status"]
     c.ops, c.jobs = [], []
     c.distinct_ops = distinct_ops(c.build["ir_dict"]) if c.build.get("ir_dict") and c.status in ("ok", "back-reject") else []
+    c.reject_ops, c.unchecked_driver = [], None
+    if c.status == "back-reject" and c.build.get("ir_dict") and not c.build.get("in_import"):
+        # the model's verdict on the scopes of a module the back end rejected (both enum-traits settings were
+        # compiled with traits on here), and — for the "rejects nothing but genuine clashes" oracle — the header
+        # the back end would have produced without `_verify_generated_identifiers_are_distinct`
+        c.reject_ops = name_ops(c.build["ir_dict"])
+        if IDENT_MSG in json.dumps(c.build.get("errors") or []):
+            c.unchecked_driver = unchecked_driver(c, files, main)
     if c.status != "ok":
         return c
     c.build_n = cppgen.build_headers(files, main, traits=False, outdir=c.outdir + "/n")
@@ -307,6 +266,28 @@ def prepare(chk, label, files, main, force=(), expect_key=None):
     c.driver_n = d2.build(cppbuild.CHECK_PRELUDE)
     c.header_only = '#include "%s.h"\nint main() { return 0; }\n' % main
     return c
+
+
+IDENT_MSG = "is already generated for"
+
+
+def unchecked_driver(c, files, main):
+    """Header + instantiate-everything driver of a module with the identifier check switched off (in this
+    process only): what the rejected module would have been compiled to.  None if that fails otherwise."""
+    from compiler.back_end.cpp import header_generator as hg
+    saved = getattr(hg, "_verify_generated_identifiers_are_distinct", None)
+    if saved is None:
+        return None
+    hg._verify_generated_identifiers_are_distinct = lambda ir, config: []
+    try:
+        os.makedirs(c.outdir + "/u", exist_ok=True)
+        b = cppgen.build_headers(files, main, traits=True, outdir=c.outdir + "/u")
+    finally:
+        hg._verify_generated_identifiers_are_distinct = saved
+    if b["status"] != "ok":
+        return None
+    d = instdrv.Driver(b["ir_dict"], main, traits=True)
+    return d.build(cppbuild.CHECK_PRELUDE)
 
 
 def compile_plan(c, idx, tier, pinned=False, all_std=False):
@@ -380,6 +361,39 @@ def evaluate(chk, c, name_answers, lit_answers, results):
         if c.status == "back-reject" and "would both be named" in errs:
             chk.nontrivial("rejected-generated-name-collision:" + ("fields" if real_fields_clash else "enum"))
             chk.extra["rejected_name_collisions"] = chk.extra.get("rejected_name_collisions", 0) + 1
+    ra = getattr(c, "reject_answers", None)
+    if c.status == "back-reject" and ra is not None and c.reject_ops:
+        errs = json.dumps(c.build.get("errors") or [])
+        real_ident = IDENT_MSG in errs
+        pred = [tuple(cl) for a in ra if a not in ("bad-op",) for cl in json.loads(a)]
+        # clashes among `EmbossReserved…` names are the business of the older check ("would both be named")
+        pred_ident = [cl for cl in pred if clash_key(cl) not in ("virtual-field-names-equal-after-camel-conversion",
+                                                                 "validator-names-equal-after-camel-conversion")]
+        chk.count()
+        if "bad-op" in ra:
+            viol("correspondence", "model driver rejected a CLASS/NS op", "", "", found=False)
+        elif real_ident and not pred_ident:
+            viol("correspondence", "identifiersDistinct: the back end rejects (generated identifiers collide), the model "
+                 "finds every scope clean", "accepted", c.build.get("errors"), found=False)
+        elif (not real_ident) and pred_ident and "would both be named" not in errs and "Reserved word" not in errs \
+                and "namespace" not in errs and "enum_case" not in errs:
+            viol("correspondence", "identifiersDistinct: the model finds a clash, the back end rejects for another reason",
+                 {"clashes": pred_ident}, c.build.get("errors"), found=False)
+        if real_ident:
+            keys = sorted({str(clash_key(cl)) for cl in pred_ident})
+            chk.nontrivial("rejected-identifier-clash:" + ",".join(keys))
+            chk.extra.setdefault("rejected_identifier_clashes", {})
+            for k in keys:
+                chk.extra["rejected_identifier_clashes"][k] = chk.extra["rejected_identifier_clashes"].get(k, 0) + 1
+            # oracle: a rejected module's header must indeed not compile (no over-rejection)
+            ur = [r for r in results if r[0].startswith("unchecked")]
+            if ur and all(ok for _t, ok, _l in ur):
+                viol("correspondence", "the back end rejects a module (generated identifiers collide) whose header and "
+                     "instantiate-everything driver compile when the check is switched off: over-rejection",
+                     "accepted", c.build.get("errors"), found=False)
+            elif ur:
+                chk.extra["rejected_modules_confirmed_ill_formed_by_gxx"] = \
+                    chk.extra.get("rejected_modules_confirmed_ill_formed_by_gxx", 0) + 1
     if c.status != "ok":
         chk.extra.setdefault("rejected", {})
         k = c.build["errors"][0][0][3][:60] if c.build.get("errors") else c.status
@@ -478,11 +492,26 @@ def run_cases(chk, cases, model_ok, tier, workers):
         dops += c.distinct_ops
     answers = common.Model("model_c07").ask(ops) if (model_ok and ops) else None
     danswers = common.Model("model_c07").ask(dops) if (model_ok and dops) else None
+    rops, rspans = [], []
+    for c in prepared:
+        rspans.append((len(rops), len(rops) + len(c.reject_ops)))
+        rops += c.reject_ops
+    ranswers = common.Model("model_c07").ask(rops) if (model_ok and rops) else None
+    for c, (a, b) in zip(prepared, rspans):
+        c.reject_answers = ranswers[a:b] if ranswers is not None else None
     for c, (a, b) in zip(prepared, dspans):
         c.distinct_answers = danswers[a:b] if danswers is not None else None
     jobs, owner = [], []
     for i, c in enumerate(prepared):
         if c.status != "ok":
+            if c.unchecked_driver is not None:
+                jobs.append({"src_text": c.unchecked_driver, "name": "c07_%d_u" % i, "std": "c++14", "sanitize": False,
+                             "opt": "-O0", "extra": ["-I" + c.outdir + "/u"], "syntax_only": True})
+                owner.append((i, "unchecked:c++14:traits"))
+                # ill-formed = some supported compiler rejects (g++ lets `ValueType::f()` pass when ValueType is int32_t)
+                jobs.append({"src_text": c.unchecked_driver, "name": "c07_%d_uc" % i, "std": "c++14", "sanitize": False,
+                             "compiler": "clang++", "opt": "-O0", "extra": ["-I" + c.outdir + "/u"], "syntax_only": True})
+                owner.append((i, "unchecked:clang:c++14:traits"))
             continue
         clash_predicted, pkeys = False, set()
         if answers is not None and spans[i] is not None:
@@ -520,7 +549,7 @@ def run_cases(chk, cases, model_ok, tier, workers):
             a, b, e = spans[i]
             na, la = answers[a:b], answers[b:e]
         evaluate(chk, c, na, la, res.get(i, []))
-    chk.extra["traces_validated_against_impl"] = chk.extra.get("traces_validated_against_impl", 0) + len(ops) + len(dops)
+    chk.extra["traces_validated_against_impl"] = chk.extra.get("traces_validated_against_impl", 0) + len(ops) + len(dops) + len(rops)
     return prepared
 
 
